@@ -96,6 +96,14 @@ fn oracle(c: &SCase, st: &mut Stats) -> Result<(), String> {
   let closure = Prg::for_fresh_key(server.verif_pprf(), &orig);
   let mut punctured: BTreeSet<u8> = BTreeSet::new();
   let mut gone: Vec<Vec<u8>> = Vec::new();
+  // for half of the cases a copy of the server taken before any puncture stays alive throughout
+  // (a replica, a snapshot): what the punctured server retains must not depend on that
+  let _replica = if c.mds.iter().map(|x| *x as u32).sum::<u32>() % 2 == 0 {
+    st.class("an-unpunctured-copy-of-the-server-stays-alive");
+    Some(server.clone())
+  } else {
+    None
+  };
   let (probe, _) = Client::blind(b"probe");
   let mut transfers = 0;
   for (i, op) in c.ops.iter().enumerate() {
